@@ -3,6 +3,7 @@ package c05
 
 import (
 	"fmt"
+	"net/http"
 	"net/http/httptest"
 	"strings"
 	"testing"
@@ -334,14 +335,20 @@ func propAbortStaysInItsRequest(t *rapid.T) {
 		}
 		note(fmt.Sprintf("deny-gate aborted=%v", c.IsAborted()))
 	})
-	r.GET("/plain", func(c *rux.Context) { note(fmt.Sprintf("plain-main aborted=%v", c.IsAborted())); c.WriteString("plain") })
+	r.GET("/plain", func(c *rux.Context) {
+		note(fmt.Sprintf("plain-main aborted=%v", c.IsAborted()))
+		c.WriteString("plain")
+	})
 	// an internal redirect: the handler hands its own context to the router again, for another path
 	r.GET("/fwd", func(c *rux.Context) {
 		note("fwd")
 		c.Req.URL.Path = "/plain"
 		c.Router().HandleContext(c)
 	})
-	r.GET("/outer", func(c *rux.Context) { note(fmt.Sprintf("outer-main aborted=%v", c.IsAborted())); c.WriteString("outer") },
+	r.GET("/outer", func(c *rux.Context) {
+		note(fmt.Sprintf("outer-main aborted=%v", c.IsAborted()))
+		c.WriteString("outer")
+	},
 		func(c *rux.Context) {
 			note(fmt.Sprintf("outer-mw-enter aborted=%v", c.IsAborted()))
 			r.ServeHTTP(httptest.NewRecorder(), httptest.NewRequest("GET", "/deny", nil))
@@ -466,3 +473,76 @@ func propLimitThenAbort(t *rapid.T) {
 }
 
 func TestPropLimitThenAbort(t *testing.T) { rapid.Check(t, propLimitThenAbort) }
+
+// propAbortStatusThroughWrapper: a middleware has put its own buffering http.ResponseWriter into c.Resp (compression,
+// caching, response rewriting do that) and replays what it captured when the chain is over.  AbortWithStatus answers
+// through c.Resp like every helper: the status it sets is the status the client gets, and nothing after it runs.
+type captureWriter struct {
+	http.ResponseWriter
+	status int
+	body   []byte
+}
+
+func (w *captureWriter) WriteHeader(code int) {
+	if w.status == 0 {
+		w.status = code
+	}
+}
+func (w *captureWriter) Write(b []byte) (int, error) {
+	if w.status == 0 {
+		w.status = 200
+	}
+	w.body = append(w.body, b...)
+	return len(b), nil
+}
+
+func propAbortStatusThroughWrapper(t *rapid.T) {
+	ev.Case()
+	r := rux.New()
+	var trace []string
+	r.Use(func(c *rux.Context) {
+		cw := &captureWriter{ResponseWriter: c.Resp}
+		c.Resp = cw
+		c.Next()
+		c.Resp = cw.ResponseWriter
+		if cw.status == 0 {
+			cw.status = 200
+		}
+		c.Resp.WriteHeader(cw.status)
+		_, _ = c.Resp.Write(cw.body)
+	})
+	n := rapid.IntRange(1, 4).Draw(t, "middleware")
+	at := rapid.IntRange(0, n-1).Draw(t, "abortingPosition")
+	code := rapid.SampledFrom([]int{401, 403, 404, 429, 503}).Draw(t, "status")
+	withMsg := rapid.Bool().Draw(t, "withMessage")
+	var mws []rux.HandlerFunc
+	for i := 0; i < n; i++ {
+		i := i
+		mws = append(mws, func(c *rux.Context) {
+			trace = append(trace, fmt.Sprintf("mw%d", i))
+			if i == at {
+				if withMsg {
+					c.AbortWithStatus(code, "denied")
+				} else {
+					c.AbortWithStatus(code)
+				}
+			}
+			c.Next()
+		})
+	}
+	r.GET("/x", func(c *rux.Context) { trace = append(trace, "main"); c.WriteString("secret") }, mws...)
+	rec := httptest.NewRecorder()
+	r.ServeHTTP(rec, httptest.NewRequest("GET", "/x", nil))
+	ev.Eval()
+	ctx := fmt.Sprintf("%d middleware, AbortWithStatus(%d, message: %v) in mw%d, a buffering writer in c.Resp: ran %v, answered %d %q", n, code, withMsg, at, trace, rec.Code, rec.Body.String())
+	if len(trace) != at+1 {
+		t.Fatalf("handlers after the aborting one ran: %s", ctx)
+	}
+	if rec.Code != code || strings.Contains(rec.Body.String(), "secret") {
+		t.Fatalf("the client does not get the abort status: %s", ctx)
+	}
+	ev.Class(fmt.Sprintf("abort-status-through-a-buffering-writer:message=%v", withMsg))
+	ev.NonTrivial(fmt.Sprint(n, at, code, withMsg), func() string { return ctx })
+}
+
+func TestPropAbortStatusThroughWrapper(t *testing.T) { rapid.Check(t, propAbortStatusThroughWrapper) }
